@@ -105,10 +105,10 @@ def match_pattern(pat, sc, trace, b):
     return True
 
 
-def judge(ctx, pid, rejected):
+def judge(ctx, pid, rejected, cross=()):
     for sc, b, trace in rejected:
         why = b["why"]
-        owner = why.split(".")[0]
+        owner = pid if why in cross else why.split(".")[0]
         brief = [{k: v for k, v in e.items() if k in ("ev", "t", "name", "kind", "cid", "outcome", "cls", "value", "status", "none", "dtype", "where", "n")}
                  for e in trace[max(0, b["at"] - 3):b["at"] + 1]]
         scd = {k: v for k, v in sc.items() if k not in ("tid",)}
@@ -128,7 +128,9 @@ def judge(ctx, pid, rejected):
 # scenario families
 # ---------------------------------------------------------------------------------------------
 ITEMS = [("text", "hi"), ("binary", b"\x00\x01"), ("frag", 1, ["a", "é"]), ("frag", 2, [b"\x01", b"", b"\x02"]), ("ping", b"pi"),
-         ("pong", b"po"), ("burst", [("text", "b1"), ("binary", b"b2"), ("ping", b"")]), ("text", "")]
+         ("pong", b"po"), ("burst", [("text", "b1"), ("binary", b"b2"), ("ping", b"")]), ("text", ""),
+         # text fragments that end inside a character (2-, 3- and 4-byte characters cut at every byte)
+         ("frag", 1, [b"\xf0\x9f\x98", b"\x80"]), ("frag", 1, [b"a\xf0", b"\x9f", b"\x98\x80\xe2\x82", b"\xacz"])]
 
 
 def fam_delivery(rng, tier):
@@ -153,9 +155,47 @@ def fam_delivery(rng, tier):
                 nm = rng.choice([c for c in cbs if c in ("open", "message", "data", "ping", "pong")] or ["open"])
                 actions = {nm: [rng.choice(["raise", "send"])]}
             n += 1
-            out.append({"tid": "dlv%d" % n, "conns": [{"events": events}], "run": {}, "callbacks": cbs, "actions": actions,
-                        "send_after_run": n % 4 == 0,
+            # some runs with a keepalive configured (interval longer than the scenario: no ping falls into it; pongs of the
+            # server are then unsolicited and carry other payloads than ours) and some with debug tracing switched on
+            run = {"ping_interval": 30, "ping_payload": rng.choice(["hb", "po"])} if n % 5 == 0 else {}
+            out.append({"tid": "dlv%d" % n, "conns": [{"events": events}], "run": run, "callbacks": cbs, "actions": actions,
+                        "send_after_run": n % 4 == 0, "trace": n % 7 == 0,
                         "tls": bool(variant % 2) if tier == "thorough" else (n % 3 == 0), "horizon": 60000})
+    return out
+
+
+def fam_app_text(rng, tier):
+    """C06 at the application level: ill-formed text is never handed to on_data/on_message, with and without
+    on_cont_message installed (which switches the connection to per-fragment delivery, where the frame layer
+    does not validate), after well-formed traffic; unfragmented frames only."""
+    from .c06 import BAD
+    out = []
+    n = 0
+    allcbs = ["open", "message", "data", "error", "close", "ping", "pong"]
+    for bad in BAD[:12] + [b"ok\xff", "é".encode() + b"\xed\xa0\x80"]:
+        for cbs in (allcbs, allcbs + ["cont_message"], ["message", "cont_message", "close"]):
+            for pre in ([], [(10, ("text", "grüße")), (10, ("binary", b"\xff"))]):
+                n += 1
+                out.append({"tid": "atx%d" % n, "conns": [{"events": pre + [(10, ("rawtext", bad)), (10, ("text", "after"))]}], "run": {},
+                            "callbacks": cbs, "horizon": 60000})
+    return out
+
+
+def fam_app_bursts(rng, tier):
+    """C03 at the application level: the same frames in one segment or in separate segments, followed by silence, are
+    handed over at once (nothing waits in a buffer for further traffic)."""
+    out = []
+    n = 0
+    small = [("text", "a"), ("binary", b"\x01\x02"), ("ping", b"p"), ("text", ""), ("pong", b""), ("frag", 1, ["x", "y"])]
+    for k in (2, 3, 4):
+        for _ in range(12 if tier == "quick" else 80):
+            items = [rng.choice(small) for _ in range(k)]
+            for mode in ("burst", "apart"):
+                for tls in (False, True):
+                    ev = [(20, ("burst", items))] if mode == "burst" else [(20 if i == 0 else 0, it) for i, it in enumerate(items)]
+                    n += 1
+                    out.append({"tid": "abu%d" % n, "conns": [{"events": ev + [(15000, ("close", 1000, b""))]}], "run": {}, "tls": tls,
+                                "horizon": 60000})
     return out
 
 
@@ -177,6 +217,19 @@ def fam_endings(rng, tier):
                     if cbs:
                         sc["callbacks"] = cbs
                     out.append(sc)
+    # the same endings with debug tracing switched on; a close reason that is not UTF-8 while validation is skipped
+    for end in ENDINGS:
+        for cbs in (None, ["error", "close"]):
+            n += 1
+            sc = {"tid": "end%d" % n, "conns": [{"events": [(10, ("text", "x")), (20, end)]}], "run": {}, "trace": True, "horizon": 90000}
+            if cbs:
+                sc["callbacks"] = cbs
+            out.append(sc)
+    for reason in (b"\xff\xfe", b"ok", b"\xc3"):
+        for runs in (1, 2):
+            n += 1
+            out.append({"tid": "end%d" % n, "conns": [{"events": [(10, ("text", "x")), (20, ("close", 1000, reason))]} for _ in range(runs)],
+                        "run": {"skip_utf8_validation": True}, "runs": runs, "horizon": 90000})
     # two runs of one object that end in different ways (nothing of the first run may show in the second)
     for e1 in ENDINGS:
         for e2 in ENDINGS:
@@ -257,6 +310,29 @@ def fam_reconnect(rng, tier):
                     if cbs:
                         sc["callbacks"] = cbs
                     out.append(sc)
+    # the interval given through websocket.setReconnect() instead of the argument
+    for s_ in [x for x in seqs if len(x) <= 2][:40]:
+        for disp in (None, "ext"):
+            n += 1
+            run = {"dispatcher": disp} if disp else {}
+            if "ptimeout" in s_:
+                run.update({"ping_interval": 5, "ping_timeout": 2})
+            sc = {"tid": "rec%d" % n, "conns": [dict(outcomes[x]) for x in s_] + [{"events": [(100, ("text", "final")), (100, ("close", 1000, b""))]}],
+                  "run": run, "global_reconnect": 2, "horizon": 200000}
+            if s_[-1] == "ok_long":
+                sc["user"] = [(len(s_) * 20000 + 7, "close")]
+            out.append(sc)
+    # a server close frame whose reason is not UTF-8 while validation is skipped ends the run like any close frame
+    for reason in (b"\xff\xfe", b"\xe2\x82"):
+        for disp in (None, "ext"):
+            for first in ("eof", None):
+                n += 1
+                run = {"reconnect": 2, "skip_utf8_validation": True}
+                if disp:
+                    run["dispatcher"] = disp
+                conns = ([dict(outcomes[first])] if first else []) + [{"events": [(50, ("text", "m")), (50, ("close", 1001, reason))]},
+                                                                      {"events": [(50, ("close", 1000, b""))]}]
+                out.append({"tid": "rec%d" % n, "conns": conns, "run": run, "horizon": 200000})
     # user close at many points of a lossy history, including inside the reconnect wait
     base = [dict(outcomes["eof"]), dict(outcomes["refused"]), dict(outcomes["ok_long"])]
     for R in (1, 3):
@@ -398,6 +474,13 @@ def fam_common(rng, tier):
     for i, sc in enumerate(out):
         sc["tid"] = "com%d" % i
     return out
+
+
+def run_extra(ctx, pid, fam, tag, cross):
+    """an application-level family for a property that is otherwise checked below the application (C03, C06)"""
+    rng = random.Random(ctx.seed * 7001 + int(pid[1:]) * 31)
+    judge(ctx, pid, validate(ctx, pid, [jsonable(sc) for sc in fam(rng, ctx.tier)], tag), cross=cross)
+    ctx.trusted += ["deterministic scheduler and virtual time vf/schedworld.py", "scripted servers vf/appworld.py"]
 
 
 def jsonable(x):
